@@ -466,7 +466,7 @@ def _protocol_cases():
     return cases
 
 
-@contract(None, ["C14", "C09"], _protocol_cases(), name="depfunc.protocol")
+@contract(None, ["C14", "C09", "C19"], _protocol_cases(), name="depfunc.protocol")
 class DepProtocol(Contract):
     """histories: whatever the order of the fit calls (and after a re-fit), every dependence function that uses
     others ends with parameters from a fit performed AFTER the last fit of each function it uses, against their
